@@ -1,6 +1,7 @@
 package c09
 
 import (
+	"encoding/binary"
 	"fmt"
 	"math"
 
@@ -221,20 +222,85 @@ func buildNumMap[K comparable, V num, M numMap[K, V]](typ string, m M, p *hmapx.
 	o.Ops["SetMax"] = func(op Op) Ev { setMax(op.V); return Ev{} }
 	o.Ops["Keys"] = func(op Op) Ev { return Ev{"seq": keys()} }
 	o.Ops["Values"] = func(op Op) Ev { return Ev{"seq": values()} }
-	o.Ops["Entries"] = func(op Op) Ev {
-		out := [][]int{}
-		drain(m.Entries(), func(x interface{}) {
-			if e, ok := x.(kvEntry[K, V]); ok {
-				out = append(out, []int{rank(e.GetKey()), n2i(e.GetValue())})
-			} else {
-				out = append(out, []int{0, Bad})
-			}
-		})
-		return Ev{"pairs": out}
-	}
+	o.Ops["Entries"] = func(op Op) Ev { return Ev{"pairs": numPairs[K, V](m.Entries(), rank)} }
 	o.Obs = func() Ev { return Ev{"size": m.Size(), "first": rank(m.GetFirstKey()), "last": rank(m.GetLastKey())} }
 	o.Proj = func() Ev { return Ev{"keys": keys(), "vals": values()} }
 	return o
+}
+
+// numPairs projects an entry enumeration of a number-valued map.
+func numPairs[K any, V num](en hmap.Enumeration, rank func(K) int) [][]int {
+	out := [][]int{}
+	drain(en, func(x interface{}) {
+		if e, ok := x.(kvEntry[K, V]); ok {
+			out = append(out, []int{rank(e.GetKey()), n2i(e.GetValue())})
+		} else {
+			out = append(out, []int{0, Bad})
+		}
+	})
+	return out
+}
+
+// wire decodes what ToBytes of the number-valued maps writes, with the standard
+// library only: a count, then per entry the key and the value.  An integer is a
+// length tag (0, 1, 2, 3, 4, 5 or 8) followed by that many bytes, big-endian
+// two's complement; a float is four bytes, the IEEE bit pattern.
+type wire struct {
+	b   []byte
+	bad bool
+}
+
+func (w *wire) take(n int) []byte {
+	if w.bad || n > len(w.b) {
+		w.bad = true
+		return make([]byte, n)
+	}
+	x := w.b[:n]
+	w.b = w.b[n:]
+	return x
+}
+
+func (w *wire) decimal() int64 {
+	n := int(w.take(1)[0])
+	switch n {
+	case 0:
+		return 0
+	case 1, 2, 3, 4, 5, 8:
+		var v int64
+		x := w.take(n)
+		if x[0]&0x80 != 0 {
+			v = -1
+		}
+		for _, c := range x {
+			v = v<<8 | int64(c)
+		}
+		return v
+	}
+	w.bad = true
+	return 0
+}
+
+func (w *wire) f32() float32 { return math.Float32frombits(binary.BigEndian.Uint32(w.take(4))) }
+
+// wirePairs decodes a whole ToBytes image: entries as (rank of key, value).
+func wirePairs(b []byte, key func(int64) int, float bool) [][]int {
+	w := &wire{b: b}
+	out := [][]int{}
+	n := w.decimal()
+	for i := int64(0); i < n && !w.bad && i < enumLimit; i++ {
+		k := key(w.decimal())
+		v := Bad
+		if float {
+			v = n2i(w.f32())
+		} else if x := w.decimal(); x > -1e9 && x < 1e9 {
+			v = int(x)
+		}
+		out = append(out, []int{k, v})
+	}
+	if w.bad || len(w.b) != 0 {
+		out = append(out, []int{0, Bad})
+	}
+	return out
 }
 
 // ------------------------------------- string-keyed, number-valued maps
